@@ -29,7 +29,7 @@ MARK = "\n@@VERIF@@ "
 
 
 def run_cases(ck, cases, binary="c07", prelude="", env=None, fresh=True, batch=40, stall=25, mem_gb=2,
-              stack_kb=None, nproc=None, max_bad_per_case=6):
+              stack_kb=None, nproc=None, max_bad_per_case=6, retry=True):
     """cases: list of lists of source units.  Returns per case a list of per-unit outcomes.  The worker reports
     after every unit, so a worker that dies / stalls loses exactly the unit it was executing:
     {"crash": rc, "stderr": tail} / {"hang": seconds}; a new worker continues with the next unit of that case
@@ -150,11 +150,19 @@ def run_cases(ck, cases, binary="c07", prelude="", env=None, fresh=True, batch=4
         os.unlink(pre)
     except OSError:
         pass
+    # a case whose units never reported (worker lost under load): run it once more on its own
+    lost = [i for i, r in enumerate(results) if any(x is None for x in r)]
+    if lost and retry:
+        ck.log("run_cases: %d case(s) with unreported units, re-running them" % len(lost))
+        again = run_cases(ck, [cases[i] for i in lost], binary=binary, prelude=prelude, env=env, fresh=True, batch=1, stall=stall,
+                          mem_gb=mem_gb, stack_kb=stack_kb, nproc=4, max_bad_per_case=max_bad_per_case, retry=False)
+        for i, r2 in zip(lost, again):
+            results[i] = [a if a is not None else b for a, b in zip(results[i], r2)]
     return results
 
 
 def kind_of_outcome(r):
-    if r is None:
+    if r is None or "missing" in r:
         return "missing"
     for k in ("ok", "err", "panic", "crash", "hang", "skipped", "nonterminating-program"):
         if k in r:
